@@ -232,12 +232,15 @@ func checkC08(r *mon.Run) {
 		if rs.Err != "" {
 			r.Count("rejected", 1)
 			r.Distinct(key)
+			if i%5000 == 17 {
+				r.SampleIfFew(3, map[string]any{"mutation": key, "input": mon.HexN(m.in, 60), "library_error": trunc(rs.Err, 100)})
+			}
 			continue
 		}
 		r.Count("accepted", 1)
 		ref, rerr := refesl.Decode(m.in)
-		if i%997 == 0 {
-			r.Sample(map[string]any{"mutation": key, "input": mon.HexN(m.in, 60), "library": short(rs.Val), "reference_error": fmt.Sprint(rerr)})
+		if i%997 == 0 || r.Counter("accepted") <= 2 {
+			r.SampleIfFew(6, map[string]any{"mutation": key, "input": mon.HexN(m.in, 60), "library": short(rs.Val), "reference_error": fmt.Sprint(rerr)})
 		}
 		if rerr != nil {
 			r.Violation("C08|accepted-malformed|"+m.kind+"|"+fieldName(m.field)+"|"+c08class(m, rs.Val), fmt.Sprintf("decode returned nil error for input that is not a sequence of well-formed lists (%v); mutation %s; library result: %s", rerr, key, short(rs.Val)), replay)
